@@ -162,16 +162,16 @@ theorem C12_deleted_not_called (cfg : Cfg) (s : State) (u : String) (out : Strin
       simpa using this
 
 /-
-FULL STATEMENT (ii) — false today for the production client:
+FULL STATEMENT (ii) — false today for the production client: "every active hook receives
+one HTTP POST per event with exactly its header, and the service sees the target's answer".
+After a fix in /repo that skips an empty header name: set `emptyHeaderNameSkipped := true`
+in BHS/Model/Hooks.lean, delete the «TODAY» (ii) block below, move this theorem below
+C12_posts_partial and uncomment it (checked: it compiles as is with the switch flipped).
 
 theorem C12_posts (cfg : Cfg) (s : State) (out : String → Outcome) :
     posts (notify cfg s out).2 = (s.table.filter (·.active)).map (fun r => ⟨r.url, r.tokenHeader, r.token⟩) ∧
-    ∀ a ∈ (notify cfg s out).2, a.seen = out a.call.url
-
-  "every active hook receives one HTTP POST per event with exactly its header, and the
-   service sees the target's answer".  After a fix in /repo that skips an empty header
-   name (`emptyHeaderNameSkipped := true`) it follows from C12_posts_partial with
-   `fun _ _ _ => by simp [wireAccepts, emptyHeaderNameSkipped]`.
+    ∀ a ∈ (notify cfg s out).2, a.seen = out a.call.url :=
+  C12_posts_partial cfg s out (fun _ _ _ => by simp [wireAccepts, emptyHeaderNameSkipped])
 -/
 
 /-- (ii) partial: whenever the client lets the header name of every active hook through —
@@ -295,14 +295,16 @@ theorem C12_success_is_200 (o : Outcome) : o.isOk = true ↔ ∃ body, o = .repl
   | unreadableBody c => simp [Outcome.isOk]
 
 /-
-FULL STATEMENT (i) — false today for every max_tries ≥ 2:
+FULL STATEMENT (i) — false today for every max_tries ≥ 2.
+After a fix in /repo that restores the threshold from the configuration: set
+`restoredMaxTries (cfgMax : Nat) : Nat := cfgMax` in BHS/Model/Hooks.lean, delete the
+«TODAY» (i) block below, move this theorem below C12_counter_partial and uncomment it
+(checked: it compiles as is with the switch flipped).
 
 theorem C12_counter (cfg : Cfg) (h1 : 1 ≤ cfg.maxTries) (ops : List Op) :
     ∀ r ∈ (run cfg ops {}).table,
-      (r.active = true ↔ r.errors < cfg.maxTries) ∧ r.errors ≤ cfg.maxTries
-
-  After a fix in /repo that restores the threshold (`restoredMaxTries cfgMax := cfgMax`) it
-  is `C12_counter_partial cfg (by simp [effThr, restoredMaxTries]; omega) ops`.
+      (r.active = true ↔ r.errors < cfg.maxTries) ∧ r.errors ≤ cfg.maxTries :=
+  C12_counter_partial cfg (by simp [effThr, restoredMaxTries]; omega) ops
 -/
 
 /-- (i) partial: for exactly those configurations in which the threshold in force equals the
@@ -373,15 +375,17 @@ theorem C12_get_state (cfg : Cfg) (ops : List Op) :
     simp [Model.Hooks.get, hu, this]
 
 /-
-FULL STATEMENT (iii) — false today as soon as a delivery was attempted:
+FULL STATEMENT (iii) — false today as soon as a delivery was attempted.
+After a fix in /repo that maps the two columns in `ToWebhook`: set
+`toWebhookMapsLastEmit := true` in BHS/Model/Hooks.lean, delete the «TODAY» (iii) block
+below, move this theorem below C12_get_reports_partial and uncomment it (checked: it
+compiles as is with the switch flipped).
 
 theorem C12_get_reports (cfg : Cfg) (ops : List Op) :
     ∀ r ∈ (run cfg ops {}).table, ∃ rep, Model.Hooks.get cfg (run cfg ops {}) r.url = .ok rep ∧
       rep.active = r.active ∧ rep.errors = r.errors ∧
-      rep.lastStatus = r.lastStatus ∧ rep.lastAt.attempt = r.lastAt.attempt
-
-  After a fix in /repo that maps the two columns (`toWebhookMapsLastEmit := true`) it is
-  `fun r hr => C12_get_reports_partial cfg ops r hr (Or.inl rfl)`.
+      rep.lastStatus = r.lastStatus ∧ rep.lastAt.attempt = r.lastAt.attempt :=
+  fun r hr => C12_get_reports_partial cfg ops r hr (Or.inl rfl)
 -/
 
 /-- (iii) partial: the report also carries status and time of the last attempt for exactly
